@@ -510,8 +510,9 @@ class Check:
             cov["samples"] = [{"obligations": self.theorems}]
         ev = {"property_id": self.pid, "tier": self.tier, "seed": self.seed, "level": level, "coverage": cov,
               "assumptions": extra_assumptions or [], "wall_s": round(wall, 2), "violations": len(self.violations)}
-        os.makedirs(os.path.join(ROOT, "evidence"), exist_ok=True)
-        with open(os.path.join(ROOT, "evidence", self.pid + ".json"), "w") as f:
+        evdir = os.path.join(BUILD, "evidence-dev") if getattr(self, "dev", False) else os.path.join(ROOT, "evidence")
+        os.makedirs(evdir, exist_ok=True)
+        with open(os.path.join(evdir, self.pid + ".json"), "w") as f:
             json.dump(ev, f, indent=1)
         for k in sorted(set(self.known)):
             print("KNOWN-FINDING: property=%s %s" % (self.pid, k))
